@@ -11,6 +11,7 @@ WF_PRES = 'final(self).wf()'
 
 def build():
     U = Unit('SYM', props=['C19', 'C07'])
+    U.default_closures = True     # rule-based D3/D16 (vlib/closures.py) applies to every function of this unit
     U.tag_loops = True     # loop invariants state property-relevant facts about abstractions: a failing one is reported
     t = U.file(T)
     for k, n in [('enum', 'IsConst'), ('type', 'Width'), ('enum', 'ArrayDims'), ('struct', 'SubroutineDef'), ('enum', 'Type')]:
